@@ -388,6 +388,35 @@ int main(int argc, char **argv)
           if (k2 != key)
             mk("key", "random", i, -1, C, k2, P, key, C);
         }
+        // flavour "pc" (partial collision): wrong keys, found with the code's own HMAC, whose tag for this file agrees
+        // with the stored one in two chosen byte positions - what a comparison that looks at part of the tag only
+        // (first/last bytes, one byte per machine word) cannot tell from the right key.  ~2^16 tries per pair.
+        if (std::string(argv[argc - 1]) == "pc" && C.size() > 48)
+        {
+          int hl = hm == 0 ? 20 : hm == 1 ? 16 : 32;
+          const int pairs[4][2] = {{0, 8}, {0, 1}, {hl - 2, hl - 1}, {0, hl - 1}};
+          FILE *f = wv_memfile(C);
+          for (auto &pr : pairs)
+          {
+            Rng r2(wv_seed() * 31 + pr[0] * 7 + pr[1]);
+            for (int tries = 0; tries < 400000; ++tries)
+            {
+              auto k2 = r2.bytes(16);
+              if (k2 == key)
+                continue;
+              u8_t tg[64];
+              fseek(f, 48, SEEK_SET);
+              hmac hh;
+              hh.gethmac(hm, k2.data(), f, tg);
+              if (tg[pr[0]] == C[10 + pr[0]] && tg[pr[1]] == C[10 + pr[1]])
+              {
+                mk("key", "partial-collision", pr[0] * 100 + pr[1], tries, C, k2, P, key, C);
+                break;
+              }
+            }
+          }
+          fclose(f);
+        }
         for (int b : {0, 15})
           for (int v : {0x00, 0xFF})
           {
